@@ -23,7 +23,7 @@ RULE = ("Hypothesis draws either a string of the multilingual corpus (language f
 ASSUMPTIONS = ["one language per case: with several candidate languages strictness legitimately changes which language's reading is accepted (C13)",
                "PREFER_DATES_FROM stays at its default (a two-digit year takes its century from the clock by design)",
                "relative-time parser is not enabled: the property is about absolute date strings"]
-ESSENTIAL = ["mode:both", "zero-field", "src:corpus", "src:generated", "src:format", "src:timestamp", "mode:strict", "mode:require", "filtered", "passed-through",
+ESSENTIAL = ["mode:both", "zero-field", "day-without-month", "src:corpus", "src:generated", "src:format", "src:timestamp", "mode:strict", "mode:require", "filtered", "passed-through",
              "parts:none-missing", "parts:day-missing", "parts:year-missing"]
 
 PARTS = ["day", "month", "year"]
@@ -89,6 +89,8 @@ def check_case(case):
     cls = ["src:" + case["src"], "mode:" + ("strict" if mode == "strict" else "require")]
     if case.get("zero_field"):
         cls.append("zero-field")
+    if case.get("day_alone"):
+        cls.append("day-without-month")
     if both:
         cls.append("mode:both")
     present = case.get("present")
@@ -214,12 +216,21 @@ def cases(draw):
         langs = data.language_order()
         lang = draw(st.one_of(st.sampled_from(langs[:30]), st.sampled_from(langs)))
         ms, ws = lang_names(lang)
-        y, m, d = draw(st.integers(1900, 2100)), draw(st.integers(1, 12)), draw(st.integers(1, 28))
+        y, m, d = draw(st.integers(1900, 2100)), draw(st.integers(1, 12)), draw(st.one_of(st.integers(1, 28), st.integers(1, 31)))
         has = {p: draw(st.booleans()) for p in ("day", "month", "year", "weekday", "time")}
         named = draw(st.booleans()) and m in ms
         numeric_ambiguous = False
+        day_alone = False
         if has["day"] and not has["month"]:
-            has["month"] = True  # a bare day number is not a date in any reading
+            if draw(st.integers(0, 2)) == 0:
+                # a day number without a month ('31 2015', '30 10:15'): which month it lands in is the clock's business, so
+                # nothing is claimed about the parts it states; the filter/clock relations apply as to any other string
+                day_alone = True
+                has["weekday"] = False
+            else:
+                has["month"] = True
+        if not day_alone:
+            d = min(d, gen.mdays(y, m))
         toks = []
         if has["weekday"] and ws:
             wd = dt.date(y, m, d).weekday()
@@ -255,6 +266,9 @@ def cases(draw):
         if not body:
             body = str(y)
             has["year"] = True
+        if day_alone:
+            numeric_ambiguous = True
+            c["day_alone"] = True
         if zero and has["day"]:
             numeric_ambiguous = True  # no claim about which parts a zero field states; the metamorphic relations still apply
             c["zero_field"] = True
